@@ -31,6 +31,15 @@ func (m mathRnd) Intn(n int) int {
 	return m.r.Intn(n)
 }
 
+// drawTaxa draws a number of taxa in [min,max]; about one case in 16 is "wide": 60..130 taxa, so that tip bitsets
+// span more than one 64-bit word.
+func drawTaxa(rt *rapid.T, min, max int) int {
+	if rapid.IntRange(0, 15).Draw(rt, "wide") == 15 {
+		return rapid.IntRange(60, 130).Draw(rt, "ntaxwide")
+	}
+	return rapid.IntRange(min, max).Draw(rt, "ntax")
+}
+
 func taxa(n int, prefix string) []string {
 	var out []string
 	for i := 0; i < n; i++ {
